@@ -182,7 +182,9 @@ def check(run: Run):
         else:
             layer1(run, scratch, ["Diamond", "Shared", "Chain"], budget=None)
         import lf_C07
+        import trace_C07
 
+        trace_C07.record_and_validate(run, scratch, 3 if run.tier == "quick" else 12)
         lf_C07.run_layers(run, scratch)
     run.cov["rule"] = (
         "layer 1: every (state, change-vector) transition of Recalc.tla for each DAG shape replayed on a real Calculator "
